@@ -20,6 +20,7 @@ CONSTANTS
     UrlIdx = "layer"
     ReaderChecksRef = TRUE
     ReaderChecksDigest = TRUE
+    ReaderResetsUrls = TRUE
     ReaderSkipsTarget = TRUE
 SPECIFICATION TraceSpec
 CONSTRAINT TraceConstraint
